@@ -345,7 +345,7 @@ func (s *vfSim) step(filter func(key string) bool) bool {
 		s.mu.Unlock()
 	}
 	// a fired non-probe event makes stale lock waiters eligible again
-	if !strings.HasPrefix(e.key, "h:f.lock") && !(s.sendProbe != nil && strings.HasPrefix(e.key, "h:cc.send")) {
+	if !strings.HasPrefix(e.key, "h:f.lock") && !strings.HasPrefix(e.key, "h:cc.mu") && !(s.sendProbe != nil && strings.HasPrefix(e.key, "h:cc.send")) {
 		s.mu.Lock()
 		for _, o := range s.parked {
 			o.stale = false
